@@ -55,7 +55,7 @@ PLANS = {
     "C19": dict(
         quick=dict(mc=["core2"], gens=[dict(maxlog=2, num=60, depth=24, lean=True, focus="commit", templates="rollback")],
                    per_beh=2, fs=[1, 3, 25, 60], vts=["ovf", "mixed", "mixed2", "big", "edge"], embs=api.EMBEDDINGS_QUICK,
-                   decode=True, tiny_ht=True, alloc=True, occupancy=5, flsweep=4, cycles=dict(runs=6, n=5, fs=[25, 60, 200], vts=["ovf", "mixed", "big", "edge"])),
+                   decode=True, tiny_ht=True, alloc=True, occupancy=5, flsweep=2, cycles=dict(runs=6, n=5, fs=[25, 60, 200], vts=["ovf", "mixed", "big", "edge"])),
         thorough=dict(mc=["core", "core2"], gens=[dict(maxlog=2, num=500, depth=32, lean=True, focus="commit", templates="rollback")],
                       per_beh=4, fs=[1, 3, 25, 60, 400], vts=["ovf", "mixed", "mixed2", "big", "edge", "huge"],
                       embs=api.EMBEDDINGS_ALL, decode=True, tiny_ht=True, alloc=True, occupancy=9, flsweep=24,
@@ -429,7 +429,13 @@ def run_plan(pid, tier, seed, extra_cov=None, t0=None):
                 violations.append(dict(prop=pid, replay=p, what="page accounting of %s between two commits is not an Alloc!Step "
                                                                 "(leak, reuse of a live page, or incomplete partition)" % pr["file"]))
         # 6c. the free list itself: FreeList!Finish predicts the list after each sync from the list before it
-        flpairs = [pr for pr in pairs if "bumps" not in pr and "flp" in pr["a"] and "flp" in pr["b"]]
+        flpairs = [pr for pr in pairs if "bumps" not in pr and "flp" in pr["a"] and "flp" in pr["b"]
+                   and not (pr["a"]["flp"] == pr["b"]["flp"] and pr["a"]["bump"] == pr["b"]["bump"] and pr["a"]["live"] == pr["b"]["live"])]
+        if tier == "quick" and len(flpairs) > 500:
+            # all pairs with a list of several pages, a sample of the rest
+            big = [pr for pr in flpairs if len(pr["a"]["flp"]) > 1 or len(pr["b"]["flp"]) > 1]
+            small = [pr for pr in flpairs if not (len(pr["a"]["flp"]) > 1 or len(pr["b"]["flp"]) > 1)]
+            flpairs = big + rng.sample(small, max(0, min(len(small), 500 - len(big))))
         if flpairs:
             bad_fl = validate_freelist(flpairs, pid)
             multi = sum(1 for pr in flpairs if len(pr["a"]["flp"]) > 1 or len(pr["b"]["flp"]) > 1)
@@ -487,7 +493,7 @@ def validate_freelist(pairs, tag):
     C.write_cfg(cfg, "TSpec", dict(M=1022, MaxPage=100000000, MaxAlloc=0, MaxFreed=0, MaxSyncs=0, Drop=set(), AllSubsets=False, MaxWaste=3),
                 postcondition="Finished")
     rc, out = C.run_tlc("FreeListTrace.tla", cfg, tag="freelisttrace" + tag, nworkers=1, timeout=2400, heap="8g", env_extra={"TRACE": tp},
-                        java_opts="-Xss2g -Dtlc2.tool.queue.IStateQueue=StateDeque")
+                        java_opts="-Xss1g -Dtlc2.tool.queue.IStateQueue=StateDeque")
     if '"TRACE-COMPLETE"' not in out:
         raise C.ToolError("FreeListTrace did not complete:\n" + out[-2000:])
     os.remove(tp)
